@@ -455,15 +455,28 @@ def outToJson : Out → Json
       Json.mkObj [("label", labelToJson p.1), ("table", tableToJson p.2)])).toArray)]
   | .table t sh => Json.mkObj [("table", tableToJson t), ("shape", .arr #[toJson sh.1, toJson sh.2])]
 
-/-- request: {"op":…, "axis":…, "table":…, …parameters…, "out": observed outcome}
+/-- coherence of the observation itself: every table that came out was read twice, by position
+(`ids()`, dense matrix, `metadata()`) and only through its OWN by-ID lookups on both axes
+(`index`/`exists`, `data(id, axis)`, `get_value_by_ids`, `metadata(id, axis)`); the readings must agree.
+`holds` is evaluated on the by-ID reading. -/
+def lookupClauses (pairs : List (String × Table Rat × Table Rat)) : Clauses :=
+  pairs.map (fun p => ("own_lookups." ++ p.1, decide (p.2.1 = p.2.2)))
+
+def asLookup (j : Json) : R (String × Table Rat × Table Rat) := do
+  pure ((← strF j "what"), (← asTable (← fld j "positional")), (← asTable (← fld j "by_id")))
+
+/-- request: {"op":…, "axis":…, "table":…, …parameters…, "out": observed outcome, "lookups": […]}
     answer: {"holds", "clause", "agree", "model", "model_holds"} -/
 def handle (req : Json) : R Json := do
   let t ← asTable (← fld req "table")
   let ax ← axisF req "axis"
   let op ← asOp req
   let out ← asOut (← fld req "out")
+  let lk ← match optFld req "lookups" with
+    | some l => asList asLookup l
+    | none => pure []
   let m := model t ax op
-  let cs := clauses t ax op out
+  let cs := lookupClauses lk ++ clauses t ax op out
   let mj := outToJson m
   pure (Json.mkObj [("holds", .bool cs.ok),
     ("clause", match cs.firstFail with | some c => .str c | none => .null),
